@@ -196,7 +196,14 @@ fn gen_s(r: &mut Prng, big: bool) -> Case {
                     }
                     11 => {
                         // side effects on the thread's own kept context: a call that ran twice shows
-                        Expr::List(vec![bin("=", rf("cnt"), bin("*", rf("v"), lit_i(2))), bin("=", rf("v"), bin("*", rf("v"), lit_i(3))), rf("v")])
+                        let effects = Expr::List(vec![bin("=", rf("cnt"), bin("*", rf("v"), lit_i(2))), bin("=", rf("v"), bin("*", rf("v"), lit_i(3))), rf("v")]);
+                        if t % 2 == 1 {
+                            // ... also when the side effects happen in an OPERAND of a binary node (whatever the
+                            // operator then makes of the values: a built-in, never registered by anybody)
+                            bin("in", effects, Expr::List(vec![rf("v"), rf("cnt")]))
+                        } else {
+                            effects
+                        }
                     }
                     0..=5 => {
                         let h = *r.pick(&hot);
